@@ -13,7 +13,7 @@ Only property theorems live here (each is audited with `#print axioms`); helper 
 `interleave`, `ValidLayout`, `SupportedTok`, `followOK`, `Syn`, …) is defined in
 `RuschmSpec/Text.lean`; the model of the Rust lexer and reader is `RuschmModel/{Lex,Read}.lean`.
 -/
-import RuschmProofs.TextLemmas
+import RuschmProofs.ReadLemmas
 
 namespace Ruschm.C06
 open Ruschm Ruschm.Lex Ruschm.Text
@@ -271,7 +271,7 @@ section Example
 private def sampleToks : List Token :=
   [.lparen, .ident "a", .period, .prim (.str "x)"), .rparen, .quote, .prim (.int (-5))]
 
-private theorem sampleToks_supported : ∀ t ∈ sampleToks, SupportedTok t := by
+private def sampleToks_supported : ∀ t ∈ sampleToks, SupportedTok t := by
   intro t ht
   simp only [sampleToks, List.mem_cons, List.not_mem_nil, or_false] at ht
   rcases ht with rfl | rfl | rfl | rfl | rfl | rfl | rfl
@@ -353,6 +353,67 @@ theorem boundary_character {first cs p t rest p'}
     (h : Lex.character first cs p = .ok (t, rest, p')) :
     startsDelim rest = true ∨ startsSharp rest = true := by
   obtain ⟨_, _, _, hd, _⟩ := character_inv h; exact hd
+
+/-! ## 5. Parentheses, dotted tails, vectors and quotes build the structure they denote -/
+
+/-- READ_TOKENS. One step of the reader (`advance`, then `current_datum` with the fuel the model
+supplies) on a token stream that starts with the tokens of a supported written datum `x` — atoms,
+`( … )`, `( … . tail)`, `#( … )`, `'x`, nested to any depth — returns the datum `x` denotes (up to
+source locations) and leaves exactly the tokens after it; a pending lexer error stays pending. -/
+theorem read_tokens (x : Syn) (hx : x.Supported) (s : Read.PState) (lts lrest : List LToken)
+    (hl : lts.map (·.tok) = x.toks) (hs : s.toks = lts ++ lrest) :
+    ∃ d s', Read.nextDatum s = .ok (some d, s') ∧ d.strip = x.denote ∧ s'.toks = lrest ∧
+      s'.lexErr = s.lexErr :=
+  nextDatum_spec x hx s lts lrest hl hs
+
+/-- READ_RENDER. The text of a supported written datum, under any valid layout, is read as
+exactly one datum: the one it denotes. -/
+theorem read_render (x : Syn) (hx : x.Supported) (layout : List (List Char))
+    (hl : ValidLayout x.toks layout) :
+    (Read.all (x.render layout)).1.map Datum.strip = [x.denote] ∧
+      (Read.all (x.render layout)).2 = none := by
+  have h := readAll_render [x] ⟨hx, trivial⟩ layout (by simpa [Syn.toksL] using hl)
+  simpa [Syn.toksL, Syn.render] using h
+
+/-- The same for a whole text: a sequence of written data is read as the sequence of data they
+denote, whatever the layout. -/
+theorem read_render_many (xs : List Syn) (hxs : Syn.SupportedL xs) (layout : List (List Char))
+    (hl : ValidLayout (Syn.toksL xs) layout) :
+    (Read.all (interleave (Syn.toksL xs) layout)).1.map Datum.strip = xs.map Syn.denote ∧
+      (Read.all (interleave (Syn.toksL xs) layout)).2 = none :=
+  readAll_render xs hxs layout hl
+
+section Example
+/-- `(a (b . "s") #(1 'c) . d)` -/
+private def sampleSyn : Syn :=
+  .dotted [.atom (.ident "a"), .dotted [.atom (.ident "b")] (.atom (.prim (.str "s"))),
+    .vec [.atom (.prim (.int 1)), .quote (.atom (.ident "c"))]] (.atom (.ident "d"))
+
+private def sampleSyn_supported : sampleSyn.Supported := by
+  simp only [sampleSyn, Syn.Supported, Syn.SupportedL, Syn.isAtomTok, SupportedTok, and_true,
+    true_and, ne_eq, reduceCtorEq, not_false_eq_true, List.cons_ne_self]
+  exact ⟨⟨Or.inl (by decide), Or.inl (by decide), by decide, Or.inl (by decide)⟩,
+    Or.inl (by decide)⟩
+
+private def sampleLayout : List (List Char) :=
+  [[], [], [' '], [], " ;the cdr\n".toList, [' '], [], [' '], [], [' '], [], [], [' '], [' '], [],
+    ['\n']]
+
+example : sampleSyn.render sampleLayout
+    = "(a (b ;the cdr\n. \"s\") #(1 'c) . d)\n".toList := by decide
+
+example : sampleSyn.denote
+    = .pair (.sym "a" none)
+        (.pair (.pair (.sym "b" none) (.prim (.str "s") none) none)
+          (.pair (.vec [.prim (.int 1) none,
+              .pair (.sym "quote" none) (.pair (.sym "c" none) (.nil none) none) none] none)
+            (.sym "d" none) none) none) none := rfl
+
+example : (Read.all "(a (b ;the cdr\n. \"s\") #(1 'c) . d)\n".toList).1.map Datum.strip
+    = [sampleSyn.denote] := by
+  have h := (read_render sampleSyn sampleSyn_supported sampleLayout (by decide)).1
+  exact h
+end Example
 
 /-! ## 6. The lexer never runs out of fuel -/
 
